@@ -31,6 +31,7 @@ struct env_log {
 static struct env_log g_env;
 
 #ifndef VERIF_NATIVE
+#ifndef ENV_OWN_RECV_STUB
 int tr_recv_all(const struct tr_socket *socket, const void *pdu, const size_t len, const time_t timeout)
 {
 	__CPROVER_assert(len <= 3248u && __CPROVER_w_ok(pdu, len), "precondition of tr_recv_all: destination writable for len bytes (contract)");
@@ -46,6 +47,7 @@ int tr_recv_all(const struct tr_socket *socket, const void *pdu, const size_t le
 	g_env.rx_calls++;
 	return r;
 }
+#endif
 
 int tr_send_all(const struct tr_socket *socket, const void *pdu, const size_t len, const time_t timeout)
 {
@@ -62,6 +64,30 @@ int tr_send_all(const struct tr_socket *socket, const void *pdu, const size_t le
 #endif
 	g_env.tx_calls++;
 	return r;
+}
+
+/* glibc's pthread_cleanup_push/pop macros: registration only, cancellation itself is not modelled */
+void __pthread_register_cancel(__pthread_unwind_buf_t *buf)
+{
+}
+void __pthread_unregister_cancel(__pthread_unwind_buf_t *buf)
+{
+}
+void __pthread_unwind_next(__pthread_unwind_buf_t *buf)
+{
+	__CPROVER_assume(0);
+}
+int __sigsetjmp(struct __jmp_buf_tag *env, int savemask)
+{
+	return 0;
+}
+
+/* address formatting for debug messages only (ip.c is not linked into packets units) */
+int lrtr_ip_addr_to_str(const struct lrtr_ip_addr *ip, char *str, const unsigned int len)
+{
+	if (len > 0)
+		str[0] = 0;
+	return 0;
 }
 
 int pthread_setcancelstate(int state, int *oldstate)
